@@ -226,9 +226,10 @@ func guardedByHasErrorsOf(x ssa.Instruction, vc ssa.CallInstruction, want bool) 
 }
 
 func errorOperand(ret *ssa.Return) ssa.Value {
-	for i := len(ret.Results) - 1; i >= 0; i-- {
+	vals := core.ReturnValues(ret)
+	for i := len(vals) - 1; i >= 0; i-- {
 		if isErrorType(ret.Results[i].Type()) {
-			return ret.Results[i]
+			return vals[i]
 		}
 	}
 	return nil
